@@ -148,7 +148,7 @@ def main(argv=None):
         mod.finish(cov, results, a.tier)
 
     # vacuity guard (harness self-test, not a property verdict)
-    vac = [r['shard'] for r in results if r.get('distinct_outcomes', 2) < 2 and not r.get('vacuous_ok')]
+    vac = [r['shard'] for r in results if r.get('distinct_outcomes', 2) < 2 and not r.get('vacuous_ok') and not r['violations']]
     if vac:
         print('HARNESS ERROR: vacuous shards (one distinct outcome): %s' % json.dumps(vac[:5], default=str))
         return 2
